@@ -83,6 +83,22 @@ impl JoinChannels {
     }
 }
 
+#[cfg(feature = "verif-hooks")]
+impl JoinChannels {
+    pub(crate) fn verif_snapshot(&self) -> crate::verif::VerifJoinBias {
+        let mut available = [0u8; 9];
+        available.copy_from_slice(self.available_channels.data.as_ref());
+        crate::verif::VerifJoinBias {
+            max_retries: self.max_retries,
+            num_retries: self.num_retries,
+            preferred_subband: self.preferred_subband.map(|s| s as usize as u8),
+            previous_channel: self.previous_channel,
+            available,
+            available_previous: self.available_channels.previous,
+        }
+    }
+}
+
 #[derive(Clone, Default)]
 #[cfg_attr(feature = "serde", derive(serde::Serialize, serde::Deserialize))]
 pub(crate) struct AvailableChannels {
